@@ -151,6 +151,7 @@ func runCheck(id, tier, repo, verif string, seed, jobs int) int {
 	o := RunOpts{Repo: repo, Verif: verif, Props: map[string]bool{id: true}, Timeout: 20, Portfolio: []string{"z3-new", "z3", "cvc5"}, Jobs: jobs, MaxPaths: 20000}
 	if tier == "thorough" {
 		o.Timeout = 120
+		o.CrossCheck = true
 	}
 	o.Kinds = propKinds[id]
 	findings := loadFindings(verif)
@@ -170,6 +171,7 @@ func runCheck(id, tier, repo, verif string, seed, jobs int) int {
 	backendSec := map[string]float64{}
 	var samples []obSample
 	total, discharged, canaries, canariesOK, skipped := 0, 0, 0, 0, 0
+	crossTried, crossConfirmed := 0, 0
 	assumed := map[string]bool{}
 	havoc := map[string]bool{}
 	var funcs []string
@@ -216,6 +218,12 @@ func runCheck(id, tier, repo, verif string, seed, jobs int) int {
 					}
 					byBackend[be]++
 					backendSec[be] += ob.Result.Seconds
+					if c := ob.Result.Confirm; c != "" {
+						crossTried++
+						if strings.HasSuffix(c, ":unsat") {
+							crossConfirmed++
+						}
+					}
 					if len(samples) < 40 || (total%37 == 0 && len(samples) < 80) {
 						samples = append(samples, obSample{shortName(fr.Fn), ob.Name, ob.Kind, ob.Result.Solver, round3(ob.Result.Seconds), truncate(ob.Src, 160)})
 					}
@@ -343,6 +351,9 @@ func runCheck(id, tier, repo, verif string, seed, jobs int) int {
 		"by_backend": be, "vacuity_canaries": canaries, "vacuity_canaries_ok": canariesOK,
 		"known_findings_hit": known, "samples": samples,
 		"obligations_of_other_properties_skipped": skipped,
+	}
+	if o.CrossCheck {
+		cov["cross_check"] = map[string]any{"rule": "every obligation discharged by an SMT solver is put to a second, different solver (cvc5 after z3, z3 5.1.0 after cvc5) for 15 s; a contradicting 'sat' makes the obligation fail, a timeout/unknown of the second solver is only counted", "put_to_second_solver": crossTried, "confirmed_unsat_by_second_solver": crossConfirmed}
 	}
 	if rr != nil {
 		cov["load_seconds"] = round3(rr.Loaded.LoadSeconds)
